@@ -141,6 +141,20 @@ def gen_cases(ctx, rng, tmp):
         f = dict(arclib.chains())[lab]
         three = [("m0", arclib.gen_content(rng, 3 * (1 << 19), "random")), ("m1", arclib.gen_content(rng, 3 * (1 << 18), "repetitive")), ("m2", arclib.gen_content(rng, 1 << 19, "random"))]
         cases.append((lab + ":multi-block", (three, f, None, "encoded", "bytesio", None, None, tmp)))
+    # sizes that sit on the class boundaries of the header's variable-length NUMBER (2^7, 2^14, 2^21): every
+    # size, count and offset of the header goes through that encoding, so a member (or a Copy-coded folder)
+    # of exactly such a length exercises the first value of each encoding length
+    edges = [127, 128, 129, 16383, 16384, 16385]
+    big_edges = [(1 << 21) - 1, 1 << 21, (1 << 21) + 1]
+    for j, (lab, f) in enumerate([c for c in chains if c[0] in ("Copy", "LZMA2", "Deflate", "BZip2", "ZStandard")]):
+        for k, n in enumerate(edges):
+            ms = [("edge%d.bin" % n, arclib.gen_content(rng, n, "random"))]
+            if (j + k) % 2:
+                ms = [("pre", b"p" * rng.choice([0, 1, 5]))] + ms + [("post", b"q")]
+            cases.append((lab + ":number-edge", (ms, f, None, rng.choice(["raw", "encoded"]), rng.choice(["path", "bytesio"]), None, None, tmp)))
+    for k, n in enumerate(big_edges):
+        lab, f = [c for c in chains if c[0] in ("Copy", "LZMA2", "Deflate")][k % 3]
+        cases.append((lab + ":number-edge", ([("edge%d.bin" % n, arclib.gen_content(rng, n, "repetitive")), ("post", b"q")], f, None, "raw" if k % 2 else "encoded", "bytesio", None, None, tmp)))
     return cases
 
 
@@ -153,6 +167,8 @@ def run(ctx):
         streams_aes.run(ctx)
     except ImportError:
         pass
+    import streams_ws
+    streams_ws.run_cmp(ctx)
     tmp = tempfile.mkdtemp(prefix="verif_c01_")
     try:
         cases = gen_cases(ctx, rng, tmp)
